@@ -575,4 +575,27 @@ example : fromRecords [0, 1] [[10, 20], [10, 21], [11, 22], [10, 20]] =
           [(0, [(10, [20, 21]), (11, [22])]), (1, [(20, [0, 3]), (21, [1]), (22, [2])])], true⟩ ∧
     fromRecords [0, 1] [[10, 20], [11, 20]] = .error .twoParents := by decide
 
+/-- The tree lemma behind C17 (*"flattening or dropping a level equals mapping
+on the reduced taxonomy"*): for nested label columns, building the tree from
+all columns and then dropping level `cols[i]` (any level; the leaf level with
+`allow_leaf`) succeeds and gives the same tree as building it from the records
+with column `i` erased — same hierarchy, same nodes at every level, same
+children / rows for every node, up to the order inside the child / row lists
+(`TreeEquiv`, CTM/Lemmas/TreeCommute.lean). -/
+theorem drop_commutes_build (cols : List Level) (recs : List (List Node)) (hc : cols.Nodup)
+    (hr : RecsOK cols recs) (hn : Nested cols recs) {i : Nat} (hi : i < cols.length)
+    (h2 : 2 ≤ cols.length) (allowLeaf : Bool) (hl : allowLeaf = true ∨ i + 1 < cols.length) :
+    ∃ t', (fromRecordsRaw cols recs).dropLevel cols[i] allowLeaf = .ok t' ∧
+      TreeEquiv t' (fromRecordsRaw (cols.eraseIdx i) (recs.map (·.eraseIdx i))) ∧
+      Nested (cols.eraseIdx i) (recs.map (·.eraseIdx i)) :=
+  let ⟨t', h1, h2'⟩ := RawTree.drop_commutes_build hc hr hn hi h2 allowLeaf hl
+  ⟨t', h1, h2', nested_eraseIdx hr hn i⟩
+
+example : (fromRecordsRaw [0, 1, 2] [[10, 20, 30], [10, 21, 31], [11, 22, 32], [10, 20, 33]]).dropLevel 1
+      = .ok ⟨true, [0, 2], [(0, [(10, [30, 33, 31]), (11, [32])]),
+              (2, [(30, [0]), (31, [1]), (32, [2]), (33, [3])])], true⟩ ∧
+    fromRecordsRaw [0, 2] [[10, 30], [10, 31], [11, 32], [10, 33]]
+      = ⟨true, [0, 2], [(0, [(10, [30, 31, 33]), (11, [32])]),
+              (2, [(30, [0]), (31, [1]), (32, [2]), (33, [3])])], true⟩ := by decide
+
 end CTM.C10
